@@ -5,5 +5,7 @@ package server
 // Without the verif hooks in the tree the schedule cannot be steered.
 const simYieldAvailable = false
 
+var simYieldOnly string
+
 func simYieldInstall(seed uint64) {}
 func simYieldBusy() bool          { return false }
